@@ -361,6 +361,15 @@ def classify_b58_accept(dec, s, meta, obs):
                 return None
         return _first(feats, (('len', K_WIF_LEN), ('fold', K_FOLD)))
     if dec in ('HDKey(ext)', 'HDKey.from_wif'):
+        if dec == 'HDKey(ext)' and not chain.hd_prefix_readings(raw[:4]) and _wif_networks(raw[0]):
+            # no extended-key version, but the first byte is a WIF version: HDKey() takes it for a plain WIF key, whose payload
+            # length is not checked
+            body = payload[1:]
+            ok_len = len(payload) == 33 or (len(payload) == 34 and payload[-1] == 1)
+            want = body[:-1] if body[-1:] == b'\x01' else body
+            if chk_ok and not ok_len and obs.get('private_hex') == want.hex() and obs.get('depth') == 0 and obs.get('chain') == '00' * 32:
+                return _first(feats + ['len'], (('len', K_WIF_LEN),))
+            return None
         if len(raw) != 82:
             if dec != 'HDKey(ext)' or len(raw) < 47:       # from_wif checks the length; HDKey() slices fixed offsets
                 return None
@@ -832,7 +841,8 @@ def structured(base, rnd):
             for body in (sec[:31], sec[:16], sec + b'\x01\x01', sec + b'\x02', sec + b'\x00', sec + sec, b'', sec[:1]):
                 out.append(('len', None, codec.b58check_encode(pl[:1] + body)))
         elif fam == 'xkey':
-            for v in (b'\x04\x88\xb2\x1f', b'\x00\x00\x00\x00', b'\xff\xff\xff\xff', rnd.randbytes(4)):
+            for v in (b'\x04\x88\xb2\x1f', b'\x00\x00\x00\x00', b'\xff\xff\xff\xff', rnd.randbytes(4),
+                      b'\x80' + rnd.randbytes(3), b'\xef' + rnd.randbytes(3)):      # the last two start with a WIF version byte
                 if not chain.hd_prefix_readings(v):
                     out.append(('unkver', None, codec.b58check_encode(v + pl[4:])))
             for body in (pl[:-1], pl + b'\0', pl[:45], pl[:4], pl + pl[45:]):
